@@ -386,6 +386,13 @@ def raw_mpint(z):
             n += 1
 
 
+def check_raw_mpint():
+    """the harness' own RFC 4251 encoder, checked against hand-written vectors (independent of paramiko)"""
+    vec = {0: "", 1: "01", 127: "7f", 128: "0080", 255: "00ff", -1: "ff", -128: "80", -129: "ff7f", -32768: "8000",
+           -256: "ff00", 0x9a378f9b2e332a7: "09a378f9b2e332a7", -0xdeadbeef: "ff21524111"}
+    return [z for z, h in vec.items() if raw_mpint(z) != enc_str(bytes.fromhex(h))]
+
+
 def parse_trace(text):
     """canonical text -> (effects list, status, expected)"""
     parts = text.split(" | ")
@@ -422,6 +429,16 @@ def boundary_values(rng, p, extra_random=3):
     """(value, label) pairs around the valid range [1, p-1]"""
     out = [(0, "0"), (1, "1"), (p - 1, "p-1"), (p, "p"), (p + 1, "p+1"), (-1, "-1"), (2, "2"), (p - 2, "p-2"),
            (2 * p, "2p"), (2 * p - 1, "2p-1"), (-p, "-p"), (-(p - 1), "-(p-1)")]
+    # negatives whose two's-complement encoding STARTS WITH THE BYTE 0x80 (no pad byte): read as unsigned they
+    # would be positive and mostly inside [1, p-1]; n = the modulus' length in bytes and its neighbours
+    n = max((abs(p).bit_length() + 7) // 8, 1)
+    for k in sorted({1, 2, n - 1, n, n + 1} - {0}):
+        top = 1 << (8 * k - 1)
+        out.append((-top, "neg-0x80-first-byte"))
+        if k > 1:
+            out.append((-top + 1, "neg-0x80-first-byte"))
+            out.append((-top + rng.randrange(1, 1 << (8 * k - 8)), "neg-0x80-first-byte"))
+    out.append((-(1 << (8 * n - 1)) - 1, "neg-0xff7f"))
     for _ in range(extra_random):
         out.append((rng.randrange(1, p), "in"))
         out.append((p + rng.randrange(0, p << rng.randrange(0, 64)), "above"))
